@@ -239,14 +239,18 @@ def SDRec.serialize (r : SDRec) (d : Nat) (v : Version) : Except Err (List Line)
   pure (hl ++ cl ++ Metadata.serialize r.md)
 
 /-- `SDRecord.deserialize(text)` followed by `.header`, `.get_structure()`, `.metadata`
-(the code wraps header/metadata errors into `DeserializationError`; only the success path and the
-empty-CTAB check are modelled here). -/
+(the code wraps header and metadata errors into `DeserializationError`: `wrapDeser`). -/
+def wrapDeser {α : Type} : Except Err α → Except Err α
+  | .ok a => .ok a
+  | .error (.other "unmodelled") => .error unmodelled
+  | .error _ => .error deserErr
+
 def SDRec.deserialize (lines : List Line) : Except Err SDRecR := do
   let p := recordParts lines
-  let h ← Header.deserialize p.1
+  let h ← wrapDeser (Header.deserialize p.1)
   if p.2.1.isEmpty then .error .invalidFile else
   let m ← readCtab p.2.1
-  let md ← Metadata.deserialize p.2.2
+  let md ← wrapDeser (Metadata.deserialize p.2.2)
   pure ⟨h, m, md⟩
 
 /-- `SDFile` with one record per molecule name, `serialize()` as lines. -/
